@@ -523,6 +523,11 @@ func init() {
 			})
 		}
 	}
+	// process environment: no variables set (pion reads only PION_LOG_* there)
+	reg("os.Getenv", func(in *Interp, _ *Frame, _ *ssa.Function, a []Value) (Value, bool) {
+		in.noteOnce("os.Getenv returns the empty string (no environment variables set)")
+		return Str{}, true
+	})
 	// randomness is environment: arbitrary values
 	reg("github.com/pion/webrtc/v4/internal/util.RandUint32", func(in *Interp, _ *Frame, _ *ssa.Function, a []Value) (Value, bool) {
 		return in.nondet("env_rand32", BV(32)), true
@@ -541,6 +546,15 @@ func init() {
 	// time.Now: an arbitrary instant (environment); no monotonic reading.
 	reg("time.Now", func(in *Interp, _ *Frame, fn *ssa.Function, a []Value) (Value, bool) {
 		st := in.zero(fn.Signature.Results().At(0).Type()).(*StructV)
+		if in.params["symbolic_time"] != 1 {
+			// default: a fixed instant (2026-01-01T00:00:00Z) plus one second per call,
+			// so that identifiers formatted from the clock stay concrete; harnesses whose
+			// property depends on the clock set the parameter symbolic_time
+			in.clockTicks++
+			in.noteOnce("time.Now returns a fixed instant (2026-01-01) advancing one second per call")
+			st.f[1] = in.F.Const(64, 63902822400+uint64(in.clockTicks))
+			return st, true
+		}
 		sec := in.nondet("env_time_now", BV(64))
 		// seconds since year 1 within [1970, 2200): keeps Unix()/UnixNano() free of overflow
 		lo, hi := uint64(62135596800), uint64(62135596800+7258118400)
